@@ -2,7 +2,8 @@
 import sys
 from analysis.runner import rule
 from analysis.facts import AnchorError
-from analysis import terms as T
+from analysis import terms as T, k2
+from analysis.cfg import cfg_of
 from analysis import chessref as R
 
 THOROUGH_CONFIGS = ['release', 'nobmi2', 'movegen-alone']
@@ -212,6 +213,67 @@ def do_walk(ctx):
     return {"nodes": nodes, "edges": edges, "depth": depth, "structure_bad": structure_bad, "legality_bad": legality_bad, "sample_line": sample_line,
             "empty_ok": r0 == ("end",), "empty_why": r0}
 
+
+
+@rule("C17.R4", "the root of the book is handed out only for the standard position")
+def r4(ctx):
+    """The book lines are legal games *from the standard start* (R3); a consumer that starts them on any other board breaks that. Every use of the
+    root cursor outside chess-lookup must be guarded by 'no board was given' (the board then defaults to Board::standard()) or by equality with
+    Board::standard() of the WHOLE board (side to move and castling rights included)."""
+    P = ctx.P
+    from analysis.facts import walk_operands
+    ROOT = "chess_lookup::INITIAL_BOOOK_MOVES"
+    uses = []
+    for k, b in P.fns.items():
+        if b["crate"] in ("chess_lookup", "chess_lookup_generator") or "::promoted[" in k:
+            continue
+        for bi, blk in enumerate(b["blocks"]):
+            for s in blk["s"] + [blk["t"]]:
+                if any(o.get("k") == "const" and o.get("from") == ROOT for o in walk_operands(s)):
+                    uses.append((k, bi))
+    ctx.floor("uses of the root book cursor", len(uses), 1)
+    for k, bi in uses:
+        ctx.used_body(k)
+        body = P.body(k)
+        c = cfg_of(body)
+        # edges that mean "the board is the standard position": the None arm of a switch on the Option<Board> (any borrow/copy of it), the true
+        # edge of Option::is_none / the false edge of is_some, the true edge of Board == Board::standard() on the whole board
+        good_edges = []
+        for si, blk in enumerate(body["blocks"]):
+            t_ = blk["t"]
+            if t_["k"] != "switch":
+                continue
+            d = k2.describe_operand(P, body, t_["d"])
+            tgts = {int(v): b_ for v, b_ in t_["tg"]}
+            x = d[1] if d[0] == "discr" else None
+            while isinstance(x, tuple) and x and x[0] in ("ref", "proj"):
+                x = x[1]
+            if x is not None and x[0] == "place" and x[2] == ():
+                tys = [l["ty"] for l in body["locals"] if l.get("n") == x[1]]
+                if tys and tys[0].replace("&", "").strip().startswith("core::option::Option<chess_movegen::Board>"):
+                    good_edges.append((si, tgts[0] if 0 in tgts else (t_["o"] if set(tgts) == {1} else None)))
+            if d[0] == "call" and d[1].startswith("core::option::Option::<chess_movegen::Board>::is_none"):
+                good_edges.append((si, t_["o"] if 0 in tgts else None))
+            if d[0] == "call" and d[1].startswith("core::option::Option::<chess_movegen::Board>::is_some"):
+                good_edges.append((si, tgts.get(0)))
+            if d[0] == "call" and d[1] == "<chess_movegen::Board as core::cmp::PartialEq>::eq" and "Board::standard" in str(d):
+                good_edges.append((si, t_["o"] if 0 in tgts else None))
+        good_edges = [(s_, t2) for s_, t2 in good_edges if t2 is not None]
+
+        def reachable_without(edges):
+            seen, todo = set(), [0]
+            while todo:
+                x_ = todo.pop()
+                if x_ in seen:
+                    continue
+                seen.add(x_)
+                for y_ in c.succ[x_]:
+                    if (x_, y_) not in edges:
+                        todo.append(y_)
+            return seen
+        ok = bool(good_edges) and bi not in reachable_without(set(good_edges))
+        ctx.ob(f"root book use in {T.short(k)[:40]}", ok, f"{k} can start a book traversal at the root on a path that did not establish 'no board given' or board == Board::standard() "
+               "(comparing piece placement alone lets a start array with Black to move, or without castling rights, into the book)", site=body.get("def_span"), sample={"guard_edges": len(good_edges)})
 
 
 @rule("C17.W", "type-level: compile-fail witnesses with compiling twins (K6; thorough tier)")
